@@ -295,6 +295,11 @@ def dictionaries():
         {"C": [0]},
         {"C": [1, 2], "B": 1},
         {"C": [0], "B": 1},
+        # escaped braces are text: nothing is referred to (E is never pulled into another string by the programs)
+        {"E": "\\{N1}", "N1": 1, "A": 1},
+        {"E": "\\{N1}", "N1": 2, "A": 1},
+        {"E": "\\{x\\}", "A": 1, "D": "\\{x\\}"},
+        {"E": "a\\{b\\}c", "A": 2},
         {"L": [1, 2]},
         {"L": ["x", "y"]},
         {"L": []},
